@@ -141,7 +141,9 @@ func (c *ClientFingerprintConfiguration) marshal(config *Config) ([]byte, error)
 			if err != nil {
 				return nil, err
 			}
-			copy(head[start:start+4], t)
+			// t is the 8-byte big-endian encoding of an int64; gmt_unix_time is
+			// its low 32 bits.
+			copy(head[start:start+4], t[len(t)-4:])
 			start = start + 4
 		}
 		_, err := io.ReadFull(config.rand(), head[start:38])
